@@ -13,7 +13,9 @@ TITLE = ("Gradients delivered to training equal the true derivatives of layer "
          "functions")
 RULE = ("Hypothesis draws one of five case kinds. prod: a tensor of rank 1-4 "
         "(axis lengths 1-4, thorough 1-6), a reduction axis (positive or "
-        "negative spelling), non-zero values from four magnitude families and "
+        "negative spelling), non-zero values from five magnitude families "
+        "(incl. 'tiny': 1e-6..1e-4 entries - small but not zero - among "
+        "entries of 10..1000) and "
         "a deliberate pattern of exact zeros (none / exactly one / exactly two "
         "/ several / all per reduced slice, a different count per slice, or an "
         "explicit Hypothesis-drawn mask for tensors of <= 24 entries; +0.0 or "
@@ -21,7 +23,7 @@ RULE = ("Hypothesis draws one of five case kinds. prod: a tensor of rank 1-4 "
         "custom_reduce_prod is compared with the float64 product of the other "
         "entries and with autodiff of tf.reduce_prod. kfl: a "
         "KroneckerFactoredLattice (size 2-4, units 1-3, terms 1-3, dims 1-4, "
-        "clip on/off, tensor or list input, optional extra axis) with exact "
+        "clip on/off, tensor or list input, 0-2 extra axes) with exact "
         "zeros in the kernel and inputs on vertices / interior / mixed / "
         "clipped outside, so that interpolated factors contain 0, 1 or >= 2 "
         "exact zeros; gradients w.r.t. kernel, scale and (at differentiable "
@@ -29,10 +31,23 @@ RULE = ("Hypothesis draws one of five case kinds. prod: a tensor of rank 1-4 "
         "that is itself cross-checked against autodiff of a plain-ops float64 "
         "expression. lattice / pwl / cat: a layer, two unrelated kernels and a "
         "batch of points; the per-example Jacobian d out / d kernel is "
-        "compared with float64 interpolation weights (hypercube and simplex; "
-        "PWL incl. cyclic, missing-value and learned keypoints; one-hot for "
-        "categorical), must be >= 0 and sum to one for Lattice, and must be "
-        "bit-identical at both kernels. Non-trivial: prod with reduced length "
+        "compared with float64 interpolation weights (hypercube and simplex, "
+        "rank 1-4 plus rank 8-9 for the matmul branch, clipped out-of-range "
+        "points on unequal-size and on all-size-2 single-tensor lattices; "
+        "PWL incl. cyclic, learned keypoints, split outputs and missing "
+        "values given by missing_input_value (below the keypoints / on a "
+        "keypoint / inside a segment / exactly 0.0), by an is_missing tensor, "
+        "by both (consistent with each other) or with the input wrapped in a "
+        "one-element list; one-hot for categorical with int32 / int64 / uint8 "
+        "/ float inputs and defaults that are negative, in range, the last "
+        "bucket, above the range or large), must be >= 0 and sum to one for "
+        "Lattice, and must be bit-identical at both kernels; for PWL the "
+        "gradient w.r.t. a trained missing_output must equal the is_missing "
+        "indicator. Every kind runs a share of its cases (prod 1/4, cat 1/5, "
+        "pwl 1/6, kfl / lattice 1/8) through a tf.function whose batch size "
+        "is unknown, and a "
+        "share (prod / kfl 1/17, others 1/6) with float64 tensors / layers. "
+        "Non-trivial: prod with reduced length "
         ">= 2; kfl with a non-zero reference gradient; every Jacobian case; "
         "distinct by SHA-1 of the case.")
 NT_FLOOR = 0.6
@@ -45,14 +60,27 @@ ASSUMPTIONS = [
     "is differentiable (strictly inside a lattice cell, or strictly outside "
     "the clipped range)",
     "Lattice inputs outside the lattice range are generated only with "
-    "clip_inputs=True (weights are documented to decay otherwise)"]
+    "clip_inputs=True (weights are documented to decay otherwise)",
+    "when missing_input_value and an is_missing tensor are both supplied they "
+    "agree (the documentation does not say which one wins)",
+    "only the batch dimension is unknown at trace time in the tf.function "
+    "cases; no Keras functional model / fit loop is built"]
 
-# float64 tensors / layers (dtype="float64").  See the report: the hand-written
-# gradient hard-codes float32.  One switch so the lead can decide.
+# float64 tensors / layers (dtype="float64") for every kind.  The hand-written
+# gradient used to hard-code float32 (F-C19-1, fixed).  One switch so the lead
+# can decide.
 GEN_FLOAT64 = True
 
-KINDS = (["prod"] * 7 + ["kfl"] * 7 + ["lattice"] * 3 + ["pwl"] * 3 +
-         ["cat"] * 1)
+KINDS = (["prod"] * 7 + ["kfl"] * 7 + ["lattice"] * 4 + ["pwl"] * 4 +
+         ["cat"] * 3)
+# one case in GRAPH_ONE_IN[kind] runs the forward pass inside a tf.function
+# whose batch size is unknown (None) at trace time, as Keras fit does (tracing
+# the forward and backward graphs costs 0.1-0.5 s, hence the modest shares).
+GRAPH_ONE_IN = {"prod": 4, "kfl": 8, "lattice": 8, "pwl": 6, "cat": 5}
+# gradient of the PWL output w.r.t. the trained missing_output weight (must be
+# the is_missing indicator); a true derivative of the layer function, although
+# the statement names the kernel only.
+JUDGE_MISSING_OUTPUT = True
 ZERO_MODES = ["none", "one", "one", "two", "many", "all", "mixed", "mixed",
               "mask", "mask"]
 
@@ -77,16 +105,24 @@ def _prod_case(draw, tier):
     else:
       zero_mode = "mixed"
   return {"kind": "prod", "shape": shape, "axis": axis,
-          "vals": draw(st.sampled_from(["unit", "ints", "wide", "ones"])),
+          "vals": draw(st.sampled_from(["unit", "ints", "wide", "ones",
+                                        "tiny"])),
           "zero_mode": zero_mode, "mask": mask,
           "negzero": draw(st.integers(0, 3)) == 0,
           "dy": draw(st.sampled_from(["ones", "normal", "ints"])),
-          "dtype": _dtype(draw), "aux": draw(S.seeds)}
+          "dtype": _dtype(draw), "graph": _graph(draw, "prod"),
+          "aux": draw(S.seeds)}
 
 
-def _dtype(draw):
+def _graph(draw, kind):
+  return draw(st.integers(0, GRAPH_ONE_IN[kind] - 1)) == 0
+
+
+def _dtype(draw, one_in=17):
   if not GEN_FLOAT64:
     return "float32"
+  if one_in != 17:
+    return "float64" if draw(st.integers(0, one_in - 1)) == 0 else "float32"
   return draw(st.sampled_from(["float32"] * 8 + ["float64"] + ["float32"] * 8))
 
 
@@ -102,7 +138,8 @@ def _kfl_case(draw, tier):
           "terms": draw(st.integers(1, 3)),
           "dims": draw(st.integers(1, 6 if big else 4)),
           "clip": clip,
-          "rows": draw(st.sampled_from([None, None, None, 1, 2])),
+          "rows": draw(st.sampled_from([None, None, None, None, 1, 2, [2, 1],
+                                        [1, 2]])),
           "as_list": draw(st.integers(0, 3)) == 0,
           "batch": draw(st.integers(1, 6 if big else 4)),
           "kzero": draw(st.sampled_from([0.0, 0.25, 0.5, 0.75])),
@@ -110,7 +147,8 @@ def _kfl_case(draw, tier):
           "smode": draw(st.sampled_from(["normal", "normal", "ints", "ones"])),
           "xmode": draw(st.sampled_from(xmodes)),
           "dy": draw(st.sampled_from(["ones", "normal", "ints"])),
-          "dtype": _dtype(draw), "aux": draw(S.seeds)}
+          "dtype": _dtype(draw), "graph": _graph(draw, "kfl"),
+          "aux": draw(S.seeds)}
 
 
 @st.composite
@@ -129,22 +167,41 @@ def _lattice_case(draw, tier):
     xmodes += ["outside"] * 4
   as_list = draw(st.integers(0, 2)) == 0
   xmode = draw(st.sampled_from(xmodes))
-  if draw(st.integers(0, 3)) == 0:
-    # clipping focus (one case in four): clipped out-of-range points on a
-    # lattice whose sizes are not all equal, tensor and list inputs alike - the
-    # per-dimension clip bounds are the only place where sizes, input format
-    # and out-of-range points interact.
+  rows = draw(st.sampled_from([None, None, 1, 2]))
+  batch = draw(st.integers(1, 2))
+  focus = draw(st.sampled_from(["none"] * 8 + ["unequal"] * 4 + ["all2"] * 4 +
+                               ["rank8"] * 4))
+  if focus in ("unequal", "all2"):
+    # clipping focus: clipped out-of-range points.  "unequal": a lattice whose
+    # sizes are not all equal, tensor and list inputs alike - the per-dimension
+    # clip bounds are the only place where sizes, input format and
+    # out-of-range points interact.  "all2": the all-size-2 single-tensor
+    # branches (hypercube: clips the weights, not the inputs; simplex: no
+    # lower-corner offset), which otherwise hardly see out-of-range points.
     clip, xmode, as_list = True, "outside", draw(st.booleans())
     sizes = list(sizes)
-    if len(sizes) > 1 and len(set(sizes)) == 1:
+    if focus == "all2":
+      sizes, as_list = [2] * max(2, len(sizes)), False
+    elif len(sizes) > 1 and len(set(sizes)) == 1:
       j = draw(st.integers(0, len(sizes) - 1))
       sizes[j] += 1
+  if focus == "rank8":
+    # rank 8-9: the tf.matmul branch of batch_outer_operation (one example,
+    # one unit; 256-512 weights, 384 with one size-3 dimension).
+    sizes = [2] * draw(st.sampled_from([8, 8, 9]))
+    if len(sizes) == 8 and draw(st.integers(0, 2)) == 0:
+      sizes[draw(st.integers(0, 7))] = 3
+    units, rows, batch = 1, None, 1
   n = int(np.prod(sizes))
   return {"kind": "lattice", "sizes": sizes, "units": units,
-          "interp": draw(st.sampled_from(["hypercube", "simplex"])),
-          "clip": clip, "rows": draw(st.sampled_from([None, None, 1, 2])),
+          # the matmul branch belongs to hypercube interpolation only
+          "interp": draw(st.sampled_from(
+              ["hypercube", "hypercube", "hypercube", "simplex"]
+              if focus == "rank8" else ["hypercube", "simplex"])),
+          "clip": clip, "rows": rows,
           "as_list": as_list,
-          "batch": draw(st.integers(1, 2)),
+          "batch": batch,
+          "dtype": _dtype(draw, 6), "graph": _graph(draw, "lattice"),
           "xmode": xmode,
           "kernel": draw(S.array_desc(shape=(n, units))),
           "kernel2": draw(S.array_desc(shape=(n, units))),
@@ -164,8 +221,17 @@ def _pwl_case(draw, tier):
             for _ in range(n - 1)]
   kp = S.f32(np.cumsum([start] + gaps))
   units = draw(st.sampled_from([1, 1, 2, 3]))
-  missing = draw(st.sampled_from([None, None, None, "value", "tensor"]))
+  missing = draw(st.sampled_from([None, None, None, "both", "value", "value",
+                                  "tensor", "tensor", "both"]))
   return {"kind": "pwl", "kp": kp, "units": units,
+          # where missing_input_value lies: below the keypoints, on a keypoint,
+          # strictly inside a segment, or exactly 0.0
+          "miss_at": draw(st.sampled_from(["below", "keypoint", "keypoint",
+                                           "interior", "zero", "zero"])),
+          "miss_idx": draw(st.integers(0, n - 2)),
+          # [x] instead of x (accepted when impute_missing is on)
+          "list1": missing == "value" and draw(st.booleans()),
+          "dtype": _dtype(draw, 6), "graph": _graph(draw, "pwl"),
           "wide_input": draw(st.booleans()),
           # a cyclic calibrator needs >= 3 keypoints (>= 2 stored weights)
           "cyclic": n >= 3 and draw(st.sampled_from([False, True, False])),
@@ -174,7 +240,7 @@ def _pwl_case(draw, tier):
                           if missing else None),
           "learned": learned,
           "set_logits": learned and draw(st.booleans()),
-          "split": draw(st.integers(0, 3)) == 0,
+          "split": draw(st.booleans()),
           "batch": draw(st.integers(1, 4)),
           "xmode": draw(st.sampled_from(["interior", "keypoints", "outside",
                                          "mixed"])),
@@ -189,9 +255,12 @@ def _cat_case(draw, tier):
   units = draw(st.sampled_from([1, 1, 2, 3]))
   return {"kind": "cat", "buckets": buckets, "units": units,
           "wide_input": draw(st.booleans()),
-          "default": draw(st.sampled_from([None, None, -1, buckets + 3, 0])),
-          "int_input": draw(st.booleans()),
-          "split": draw(st.integers(0, 3)) == 0,
+          "default": draw(st.sampled_from([None, None, -1, -1, buckets + 3, 0,
+                                           buckets - 1, buckets - 1, 1000])),
+          "in_dtype": draw(st.sampled_from(["int32", "float32", "int64",
+                                            "uint8"])),
+          "dtype": _dtype(draw, 6), "graph": _graph(draw, "cat"),
+          "split": draw(st.booleans()),
           "batch": draw(st.integers(1, 5)),
           "kernel": draw(S.array_desc(shape=(buckets, units))),
           "kernel2": draw(S.array_desc(shape=(buckets, units))),
@@ -222,6 +291,24 @@ def _upstream(mode, rs, shape):
   if mode == "ints":
     return rs.randint(-2, 3, size=shape).astype(np.float32)
   return rs.uniform(-1, 1, size=shape).astype(np.float32)
+
+
+def _forward(tf, case, fn, tensors, as_list):
+  """Zero-argument forward pass: fn(list(tensors)) if as_list else
+  fn(tensors[0]).  With case["graph"] the call goes through a tf.function whose
+  input signature leaves the batch size unknown."""
+  pack = (lambda a: list(a)) if as_list else (lambda a: a[0])
+  if not case.get("graph"):
+    return lambda: fn(pack(tensors))
+  specs = [tf.TensorSpec([None] + [int(v) for v in t.shape[1:]], t.dtype)
+           for t in tensors]
+  g = tf.function(lambda *a: fn(pack(a)), input_signature=specs,
+                  autograph=False)
+  return lambda: g(*tensors)
+
+
+def _np_dtype(case):
+  return np.float64 if case.get("dtype") == "float64" else np.float32
 
 
 def _compare(out, got, ref, clause, **sig):
@@ -285,6 +372,15 @@ def _prod_tensor(case):
     a = rs.randint(1, 4, size=shape).astype(np.float64)
   elif vals == "wide":
     a = 10.0 ** rs.uniform(-2, 2, size=shape)
+  elif vals == "tiny":
+    # 1e-6..1e-4 entries (one or two per reduced slice) among entries of
+    # 10..1000: tiny but NOT zero, and the other partial products are large
+    # enough for a "treated as zero" mistake to exceed the tolerance.
+    a = 10.0 ** rs.uniform(1, 3, size=shape)
+    am = np.moveaxis(a, ax, -1)            # view
+    for idx in np.ndindex(am.shape[:-1]):
+      for j in rs.permutation(shape[ax])[:rs.randint(1, 3)]:
+        am[idx + (j,)] = 10.0 ** rs.uniform(-6, -4)
   else:
     a = np.ones(shape)
   a = a * rs.choice([-1.0, 1.0], size=shape)
@@ -342,7 +438,10 @@ def _run_prod(case, out):
                               "last" if ax == rank - 1 else "middle"),
             "prod:axis-spelling=%s" % ("negative" if case["axis"] < 0 else
                                        "positive"),
-            "prod:zero_mode=" + case["zero_mode"], "prod:dtype=" + dtype)
+            "prod:zero_mode=" + case["zero_mode"], "prod:dtype=" + dtype,
+            "prod:vals=" + case["vals"])
+  if case.get("graph"):
+    out.label("prod:graph-none-batch")
   if length == 1:
     out.label("prod:reduced-length=1")
   for name, sel in (("0", zcount == 0), ("1", zcount == 1),
@@ -357,10 +456,13 @@ def _run_prod(case, out):
   sig = dict(dtype=dtype)
   t = tf.constant(a, dtype=dtype)
   dyt = tf.constant(dy, dtype=dtype)
+  fwd = _forward(tf, case,
+                 lambda v: kfl.custom_reduce_prod(v, axis=case["axis"]), [t],
+                 False)
   try:
     with tf.GradientTape() as tape:
       tape.watch(t)
-      y = kfl.custom_reduce_prod(t, axis=case["axis"])
+      y = fwd()
     g = tape.gradient(y, t, output_gradients=dyt)
   except Exception as e:  # pylint: disable=broad-except
     where = _lattice_frame(e.__traceback__)
@@ -389,6 +491,14 @@ def _run_prod(case, out):
 
 # --------------------------------------------------------------------------
 # kfl
+def _rows(case):
+  """Sizes of the extra axes between batch and (units,) dims."""
+  r = case.get("rows")
+  if not r:
+    return []
+  return [int(v) for v in r] if isinstance(r, (list, tuple)) else [int(r)]
+
+
 def _kfl_data(case):
   rs = np.random.RandomState(case["aux"])
   size, units, terms, dims = (case["size"], case["units"], case["terms"],
@@ -410,7 +520,7 @@ def _kfl_data(case):
     s = np.ones((units, terms)) * rs.choice([-1.0, 1.0], size=(units, terms))
   s = np.clip(s, -2.5, 2.5)
   b = rs.normal(size=(units,))
-  lead = [case["batch"]] + ([case["rows"]] if case["rows"] else [])
+  lead = [case["batch"]] + _rows(case)
   xshape = tuple(lead + ([units] if units > 1 else []) + [dims])
   vert = rs.randint(0, size, size=xshape).astype(np.float64)
   inter = rs.randint(0, size - 1, size=xshape) + rs.uniform(0.1, 0.9,
@@ -505,7 +615,7 @@ def _run_kfl(case, out):
         1.0, np.max(np.abs(auto), initial=0.0)):
       raise HarnessError("C19 kfl oracle disagrees with plain-ops autodiff on "
                          "%s gradient" % name)
-  out.label("kfl", "kfl:x=" + case["xmode"], "kfl:size=%d" % min(size, 3),
+  out.label("kfl", "kfl:x=" + case["xmode"], "kfl:size=%d" % size,
             "kfl:units>1" if units > 1 else "kfl:units=1",
             "kfl:terms=%d" % terms, "kfl:dims=%d" % dims,
             "kfl:clip" if case["clip"] else "kfl:noclip",
@@ -513,6 +623,10 @@ def _run_kfl(case, out):
             "kfl:dtype=" + dtype)
   if case["rows"]:
     out.label("kfl:extra-axis")
+    if len(_rows(case)) > 1:
+      out.label("kfl:two-extra-axes")
+  if case.get("graph"):
+    out.label("kfl:graph-none-batch")
   for name, sel in (("0", nzero == 0), ("1", nzero == 1), (">=2", nzero >= 2)):
     if np.any(sel):
       out.label("kfl:factor-zeros=" + name)
@@ -536,10 +650,11 @@ def _run_kfl(case, out):
   layer.kernel.assign(k.astype(dtype))
   layer.scale.assign(s.astype(dtype))
   layer.bias.assign(b.astype(dtype))
+  fwd = _forward(tf, case, layer, xs, case["as_list"])
   try:
     with tf.GradientTape() as tape:
       tape.watch(xs)
-      y = layer(inp)
+      y = fwd()
     grads = tape.gradient(y, [layer.kernel, layer.scale] + xs,
                           output_gradients=tf.constant(dy, dtype=dtype))
   except Exception as e:  # pylint: disable=broad-except
@@ -574,7 +689,7 @@ def _lattice_points(case):
   rs = np.random.RandomState(case["aux"])
   sizes = np.array(case["sizes"])
   d, units = len(sizes), case["units"]
-  lead = [case["batch"]] + ([case["rows"]] if case["rows"] else [])
+  lead = [case["batch"]] + _rows(case)
   shape = tuple(lead + ([units] if units > 1 else []) + [d])
   vert = rs.randint(0, 1 << 30, size=shape) % sizes
   lo = rs.randint(0, 1 << 30, size=shape) % (sizes - 1)
@@ -629,6 +744,8 @@ def simplex_weights(p, sizes):
 def _judge_jacobian(out, tf, fn, kernel_var, k1, k2, ref, clause, lattice,
                     **sig):
   """ref: (outputs, *kernel.shape) float64."""
+  npdt = kernel_var.dtype.as_numpy_dtype
+  k1, k2 = np.asarray(k1).astype(npdt), np.asarray(k2).astype(npdt)
   kernel_var.assign(k1)
   j1, yshape = _jacobian(tf, fn, kernel_var)
   if not _compare(out, j1, ref, clause, **sig):
@@ -647,7 +764,7 @@ def _judge_jacobian(out, tf, fn, kernel_var, k1, k2, ref, clause, lattice,
                   kind=clause, what="sum", **sig)
       return
   if np.array_equal(k1, k2):      # the second kernel must be a different one
-    k2 = (k1.astype(np.float64) * -2.5 + 3.0).astype(np.float32)
+    k2 = (k1.astype(np.float64) * -2.5 + 3.0).astype(npdt)
   kernel_var.assign(k2)
   j2, _ = _jacobian(tf, fn, kernel_var)
   out.checks += 1
@@ -665,12 +782,14 @@ def _run_lattice(case, out):
   x = _lattice_points(case)
   k1 = S.materialize(case["kernel"], (n, units))
   k2 = S.materialize(case["kernel2"], (n, units))
+  dtype = case.get("dtype") or "float32"
   layer = tfl.layers.Lattice(lattice_sizes=sizes, units=units,
                              interpolation=case["interp"],
-                             clip_inputs=case["clip"])
-  xt = tf.constant(x)
-  inp = [xt[..., i:i + 1] for i in range(d)] if case["as_list"] else xt
-  layer(inp)
+                             clip_inputs=case["clip"], dtype=dtype)
+  xt = tf.constant(x, dtype=dtype)
+  xs = [xt[..., i:i + 1] for i in range(d)] if case["as_list"] else [xt]
+  layer(xs if case["as_list"] else xt)
+  fwd = _forward(tf, case, layer, xs, case["as_list"])
   pts = x.astype(np.float64).reshape(-1, units, d)
   wfn = hypercube_weights if case["interp"] == "hypercube" else simplex_weights
   ref = np.zeros((pts.shape[0], units, n, units))
@@ -684,11 +803,21 @@ def _run_lattice(case, out):
             "lattice:all-size-2" if all(s == 2 for s in sizes) else
             "lattice:some-size>2",
             "lattice:clip" if case["clip"] else "lattice:noclip",
-            "lattice:list-input" if case["as_list"] else "lattice:tensor-input")
+            "lattice:list-input" if case["as_list"] else "lattice:tensor-input",
+            "lattice:dtype=" + dtype)
   if case["rows"]:
     out.label("lattice:extra-axis")
+  if case.get("graph"):
+    out.label("lattice:graph-none-batch")
+  if d >= 8:
+    out.label("lattice:rank>=8")
+    if case["interp"] == "hypercube":
+      out.label("lattice:matmul-branch")
+  if (case["clip"] and case["xmode"] == "outside" and not case["as_list"] and
+      d > 1 and all(s == 2 for s in sizes)):
+    out.label("lattice:all2-tensor-clip-outside:" + case["interp"])
   out.nontrivial = True
-  _judge_jacobian(out, tf, lambda: layer(inp), layer.kernel, k1, k2, ref,
+  _judge_jacobian(out, tf, fwd, layer.kernel, k1, k2, ref,
                   "lattice-jacobian", True, interp=case["interp"])
 
 
@@ -702,11 +831,22 @@ def _run_pwl(case, out):
   n, units, batch = len(kp), case["units"], case["batch"]
   cyclic, missing = case["cyclic"], case["missing"]
   width = units if (case["wide_input"] and units > 1) else 1
-  miss_val = float(np.float32(kp[0] - 7.25))
+  dtype = case.get("dtype") or "float32"
+  miss_at = case.get("miss_at") or "below"
+  mi = min(case.get("miss_idx") or 0, n - 2)
+  if miss_at == "keypoint":
+    miss_val = float(kp[mi])
+  elif miss_at == "interior":
+    miss_val = float(np.float32(kp[mi] + 0.375 * (kp[mi + 1] - kp[mi])))
+  elif miss_at == "zero":
+    miss_val = 0.0
+  else:
+    miss_val = float(np.float32(kp[0] - 7.25))
+  by_value = missing in ("value", "both")
   kw = {}
   if missing:
     kw["impute_missing"] = True
-    if missing == "value":
+    if by_value:
       kw["missing_input_value"] = miss_val
     if case["missing_out"] is not None:
       kw["missing_output_value"] = case["missing_out"]
@@ -714,7 +854,7 @@ def _run_pwl(case, out):
       input_keypoints=np.asarray(kp, np.float32), units=units,
       is_cyclic=cyclic, split_outputs=case["split"],
       input_keypoints_type="learned_interior" if case["learned"] else "fixed",
-      **kw)
+      dtype=dtype, **kw)
   # points
   shape = (batch, width)
   seg = rs.randint(0, n - 1, size=shape)
@@ -738,12 +878,21 @@ def _run_pwl(case, out):
   m = np.zeros(shape)
   if missing:
     m = (rs.uniform(size=shape) < 0.4).astype(np.float64)
-    if missing == "value":
+    if by_value:
+      # every input equal to missing_input_value is missing (also one that was
+      # drawn as a regular point); with "both" the is_missing tensor says the
+      # same, so the documented meaning does not depend on which one wins.
       x = np.where(m > 0, np.float32(miss_val), x).astype(np.float32)
       m = (x == np.float32(miss_val)).astype(np.float64)
-  xt = tf.constant(x)
-  inp = [xt, tf.constant(m.astype(np.float32))] if missing == "tensor" else xt
-  layer(inp)
+  xt = tf.constant(x, dtype=dtype)
+  if missing in ("tensor", "both"):
+    tensors, as_list = [xt, tf.constant(m, dtype=dtype)], True
+  elif case.get("list1"):
+    tensors, as_list = [xt], True
+  else:
+    tensors, as_list = [xt], False
+  layer(list(tensors) if as_list else xt)
+  fwd = _forward(tf, case, layer, tensors, as_list)
   # keypoints the layer interpolates between
   if case["learned"]:
     logits = layer.interpolation_logits.numpy().astype(np.float64)
@@ -776,13 +925,33 @@ def _run_pwl(case, out):
             "pwl:cyclic" if cyclic else "pwl:not-cyclic",
             "pwl:missing=%s" % missing,
             "pwl:learned-keypoints" if case["learned"] else
-            "pwl:fixed-keypoints")
+            "pwl:fixed-keypoints", "pwl:dtype=" + dtype)
   if case["split"] and units > 1:
     out.label("pwl:split-outputs")
+    if missing:
+      out.label("pwl:split+missing")
+  if by_value:
+    out.label("pwl:missing-value-at=" + miss_at)
+    if np.any(m > 0):
+      out.label("pwl:missing-value-hit")
+  if case.get("list1"):
+    out.label("pwl:one-element-list-input")
+  if case.get("graph"):
+    out.label("pwl:graph-none-batch")
   out.nontrivial = True
-  _judge_jacobian(out, tf, lambda: layer(inp), layer.kernel, k1, k2, ref,
-                  "pwl-jacobian", False, cyclic=cyclic, missing=bool(missing),
-                  learned=case["learned"])
+  sig = dict(cyclic=cyclic, missing=bool(missing), learned=case["learned"])
+  _judge_jacobian(out, tf, fwd, layer.kernel, k1, k2, ref, "pwl-jacobian",
+                  False, **sig)
+  if (JUDGE_MISSING_OUTPUT and missing and case["missing_out"] is None and
+      not out.violations):
+    # out = is_missing * missing_output + (1 - is_missing) * pwl(x)
+    out.label("pwl:missing-output-grad-judged")
+    jm, _ = _jacobian(tf, fwd, layer.missing_output)
+    refm = np.zeros((batch, units, 1, units))
+    for u in range(units):
+      refm[:, u, 0, u] = mm[:, u]
+    _compare(out, jm, refm.reshape(-1, 1, units), "pwl-missing-output-grad",
+             **sig)
 
 
 # --------------------------------------------------------------------------
@@ -794,14 +963,22 @@ def _run_cat(case, out):
   nb, units, batch = case["buckets"], case["units"], case["batch"]
   width = units if (case["wide_input"] and units > 1) else 1
   default = case["default"]
+  dtype = case.get("dtype") or "float32"
+  in_dtype = case.get("in_dtype") or (
+      "int32" if case.get("int_input") else "float32")
+  if in_dtype == "float32" and dtype == "float64":
+    in_dtype = "float64"
+  if in_dtype == "uint8" and default is not None and not 0 <= default <= 255:
+    default = 200          # a default must be representable in the input dtype
   x = rs.randint(0, nb, size=(batch, width))
   if default is not None:
     x = np.where(rs.uniform(size=x.shape) < 0.4, default, x)
   layer = tfl.layers.CategoricalCalibration(
       num_buckets=nb, units=units, default_input_value=default,
-      split_outputs=case["split"])
-  xt = tf.constant(x.astype(np.int32 if case["int_input"] else np.float32))
+      split_outputs=case["split"], dtype=dtype)
+  xt = tf.constant(x.astype(in_dtype))
   layer(xt)
+  fwd = _forward(tf, case, layer, [xt], False)
   idx = np.where(x == default, nb - 1, x) if default is not None else x
   idx = np.broadcast_to(idx, (batch, units))
   ref = np.zeros((batch, units, nb, units))
@@ -814,11 +991,20 @@ def _run_cat(case, out):
   out.label("cat", "cat:units>1" if units > 1 else "cat:units=1",
             "cat:input-width=%s" % ("units" if width > 1 else "1"),
             "cat:default-value" if default is not None else "cat:no-default",
-            "cat:int-input" if case["int_input"] else "cat:float-input")
+            "cat:in-dtype=" + in_dtype, "cat:dtype=" + dtype)
   if default is not None and np.any(x == default):
     out.label("cat:default-hit")
+  if default is not None:
+    out.label("cat:default=%s" % ("last-bucket" if default == nb - 1 else
+                                  "in-range" if 0 <= default < nb else
+                                  "negative" if default < 0 else
+                                  "large" if default >= 200 else "above"))
+  if case["split"] and units > 1:
+    out.label("cat:split-outputs")
+  if case.get("graph"):
+    out.label("cat:graph-none-batch")
   out.nontrivial = True
-  _judge_jacobian(out, tf, lambda: layer(xt), layer.kernel, k1, k2, ref,
+  _judge_jacobian(out, tf, fwd, layer.kernel, k1, k2, ref,
                   "cat-jacobian", False, default=default is not None)
 
 
@@ -849,12 +1035,15 @@ LEVEL_TEXT = ("Generated-input exploration: thousands of tensors (rank 1-4, "
               "of Lattice (hypercube and simplex), PWLCalibration and "
               "CategoricalCalibration against float64 interpolation weights, "
               "non-negativity, unit sum and independence from the kernel "
-              "value. Catches wrong zero-branch logic, dropped upstream "
+              "value; eager and tf.function (unknown batch size) calls, "
+              "float32 and float64. Catches wrong zero-branch logic, dropped "
+              "upstream "
               "gradients, axis mistakes and weight mistakes; cannot show "
               "absence.")
 LEVEL_NOTE = ("Tolerance 1e-4*max(1,|reference|) per gradient entry; Jacobian "
               "non-negativity and kernel-independence are exact. Magnitudes "
               "moderate (no float32 overflow/underflow of partial products). "
               "Input gradients judged only at differentiable coordinates. "
+              "Graph mode only through tf.function with an unknown batch size. "
               "Sizes bounded as stated in the rule. Trusted: TensorFlow "
               "autodiff of built-in ops, NumPy, the harness.")
